@@ -62,6 +62,9 @@ Checks(x) ==
   \* a render through the cluster-connected route (RESTClientGetter set, --dry-run=server) equals the client-only one
   [n |-> "C05_Route_Same",   v |-> render => o.routeSame],
   \* the second render through ONE action.Configuration (the first had --kube-version / --api-versions) equals a render through a fresh one
+  \* the helm COMMAND LINE (template / install / upgrade / upgrade --install of a missing release, unrelated flags set,
+  \* --enable-dns exactly when the case has it) records the documents of the SDK render: no flag but --enable-dns turns DNS on
+  [n |-> "C05_CLI_Same",     v |-> render => o.cliSame],
   [n |-> "C05_CfgReuse_Same", v |-> render => o.cfgReuseSame],
   \* overlapping client-only renders with one --api-versions entry each see their own entry and nobody else's
   [n |-> "C05_CapsConc_Same", v |-> render => o.capsConcSame],
